@@ -60,13 +60,44 @@ def updG (nb ib vb : UInt8) (ni v : Bool) (e : Cell) : Cell :=
   let e := if ni then { e with note := decNote nb, ins := ib.toNat } else e
   if v then { e with vol := (vb.toNat + 1) % 256 } else e
 
+theorem entry_eval (chn : Nat) (w : UInt8) (k : Nat) (a b c : Bool) (hk : k < 32)
+    (hw : w.toNat = k + (if a then 32 else 0) + (if b then 64 else 0) + (if c then 128 else 0))
+    (nb ib vb f1 f2 : UInt8) (tail : Bytes) (row : List Cell) :
+    entry chn w ((if a then [nb, ib] else []) ++ (if b then [vb] else []) ++ (if c then [f1, f2] else []) ++ tail) row =
+      some (tail, (if a then 2 else 0) + (if b then 1 else 0) + (if c then 2 else 0),
+            if k < chn then modAt row k (updG nb ib vb a b) else row) := by
+  have e1 : w.toNat % 32 = k := by rw [hw]; cases a <;> cases b <;> cases c <;> simp <;> omega
+  have e2 : (w.toNat / 32 % 2 = 1) = (a = true) := by
+    rw [hw]; cases a <;> cases b <;> cases c <;> simp <;> omega
+  have e3 : (w.toNat / 64 % 2 = 1) = (b = true) := by
+    rw [hw]; cases a <;> cases b <;> cases c <;> simp <;> omega
+  have e4 : (w.toNat / 128 % 2 = 1) = (c = true) := by
+    rw [hw]; cases a <;> cases b <;> cases c <;> simp <;> omega
+  unfold entry
+  simp only [e1, e2, e3, e4]
+  cases a <;> cases b <;> cases c <;> simp <;> rfl
+
 theorem entry_entryG (chn k : Nat) (hk : k < 32) (nb ib vb : UInt8) (fx : UInt8 × UInt8) (ni v e : Bool)
     (hne : (!ni && !v && !e) = false) (tail : Bytes) (row : List Cell) :
     ∃ w body, entryG k nb ib vb fx ni v e = w :: body ∧ w ≠ 0 ∧
+      body.length = (if ni then 2 else 0) + (if v then 1 else 0) + (if e then 2 else 0) ∧
       entry chn w (body ++ tail) row =
         some (tail, body.length, if k < chn then modAt row k (updG nb ib vb ni v) else row) := by
-  cases ni <;> cases v <;> cases e <;> simp at hne <;>
-    (refine ⟨_, _, by simp [entryG]; exact ⟨rfl, rfl⟩, ?_, ?_⟩)
-  all_goals sorry
+  have hlt : k + (if ni then 32 else 0) + (if v then 64 else 0) + (if e then 128 else 0) < 256 := by
+    cases ni <;> cases v <;> cases e <;> simp <;> omega
+  have hpos : 0 < k + (if ni then 32 else 0) + (if v then 64 else 0) + (if e then 128 else 0) := by
+    cases ni <;> cases v <;> cases e <;> simp at hne ⊢ <;> omega
+  have hw := u8_toNat_lt hlt
+  refine ⟨u8 (k + (if ni then 32 else 0) + (if v then 64 else 0) + (if e then 128 else 0)),
+    (if ni then [nb, ib] else []) ++ (if v then [vb] else []) ++ (if e then [fx.1, fx.2] else []), ?_, ?_, ?_, ?_⟩
+  · unfold entryG; simp only [hne]; simp
+  · intro hh
+    have h0 := congrArg UInt8.toNat hh
+    rw [hw] at h0
+    have z : (0 : UInt8).toNat = 0 := rfl
+    omega
+  · cases ni <;> cases v <;> cases e <;> simp
+  · rw [entry_eval chn _ k ni v e hk hw nb ib vb fx.1 fx.2 tail row]
+    cases ni <;> cases v <;> cases e <;> simp
 
 end Xmp.Fmt.S3m
